@@ -4,7 +4,7 @@
 //
 // A-aead / FFI: `aws_lc_rs::constant_time::verify_slices_are_equal` ends in the C function CRYPTO_memcmp.  It is
 // replaced (kani::stub) by `verify_slices_model`, which implements its documented meaning ("Ok iff the two byte
-// strings are equal") and records which slices it was given.
+// strings are equal", here for 16-byte strings) and records which slices it was given.
 use super::*;
 include!("_sc_common.rs");
 
@@ -20,16 +20,9 @@ fn verify_slices_model(a: &[u8], b: &[u8]) -> Result<(), aws_lc_rs::error::Unspe
         CMP_A = (a.as_ptr(), a.len());
         CMP_B = (b.as_ptr(), b.len());
     }
-    if a.len() != b.len() {
-        return Err(aws_lc_rs::error::Unspecified);
-    }
-    let mut diff = 0u8;
-    let mut i = 0;
-    while i < a.len() {
-        diff |= a[i] ^ b[i];
-        i += 1;
-    }
-    if diff == 0 {
+    // the model covers 16-byte strings only (loop-free); that this is all the code ever asks for is itself checked
+    assert!(a.len() == TAG_LEN && b.len() == TAG_LEN, "C18/unknown_path_secret.authenticate/compares_two_16_byte_strings");
+    if tag16(a) == tag16(b) {
         Ok(())
     } else {
         Err(aws_lc_rs::error::Unspecified)
@@ -48,7 +41,7 @@ fn tag16(s: &[u8]) -> u128 {
 //@ harness props=C18 tier=quick level=full timeout=300
 //@ fn packet::secret_control::unknown_path_secret::Packet::authenticate
 #[kani::proof]
-#[kani::unwind(18)]
+#[kani::unwind(3)]
 #[kani::stub(aws_lc_rs::constant_time::verify_slices_are_equal, verify_slices_model)]
 fn vq_c18_unknown_path_secret_authenticate() {
     // an arbitrary decoded packet (decode always yields a 16-byte crypto_tag, see ..._decode_total_and_exact)
